@@ -59,7 +59,7 @@ type script struct {
 	calls      []wcall
 	stacked    bool          // the wrapped writer is another ProgressWriter that has already counted bytes
 	stringable bool          // wrapped writer implements io.StringWriter
-	rich       bool          // ... and Flush / Buffered / Sync / Close / Available, all failing
+	rich       bool          // ... and Flush / Buffered / Sync / Close / Available / Seek / Stat / WriteAt / Truncate, failing or misleading
 	greedy     bool          // consumer drains in a loop from the start
 	late       int           // consumer only starts before call #late (-1: per-call flags)
 	absent     bool          // consumer absent until Close: it asks for Status() only once the writer is inside Close()
@@ -163,6 +163,13 @@ func (w *richPlain) Close() error   { return errBoom }
 func (w *richPlain) Size() int      { return 4096 }
 func (w *richPlain) Len() int       { return 1 }
 
+// ... and the positional methods of a file that is not at its beginning (opened for append, or written to before it
+// was wrapped): where the wrapped writer stands is not a count it has reported
+func (w *richPlain) Seek(offset int64, whence int) (int64, error) { return 7340032 + offset, nil }
+func (w *richPlain) Stat() (os.FileInfo, error)                   { return nil, errBoom }
+func (w *richPlain) WriteAt(p []byte, off int64) (int, error)     { return 0, errBoom }
+func (w *richPlain) Truncate(size int64) error                    { return errBoom }
+
 type richString struct{ stringWriter }
 
 func (w *richString) Flush() error   { return errBoom }
@@ -172,6 +179,13 @@ func (w *richString) Sync() error    { return errBoom }
 func (w *richString) Close() error   { return errBoom }
 func (w *richString) Size() int      { return 4096 }
 func (w *richString) Len() int       { return 1 }
+
+// ... and the positional methods of a file that is not at its beginning (opened for append, or written to before it
+// was wrapped): where the wrapped writer stands is not a count it has reported
+func (w *richString) Seek(offset int64, whence int) (int64, error) { return 7340032 + offset, nil }
+func (w *richString) Stat() (os.FileInfo, error)                   { return nil, errBoom }
+func (w *richString) WriteAt(p []byte, off int64) (int, error)     { return 0, errBoom }
+func (w *richString) Truncate(size int64) error                    { return errBoom }
 
 // the scenario, run on the root goroutine of a bubble ----------------------------
 
